@@ -13,6 +13,7 @@ import (
 	"os"
 	"path/filepath"
 	"regexp"
+	"runtime"
 	"strconv"
 	"strings"
 	"sync"
@@ -285,6 +286,24 @@ func c10WebCase(c *Ctx, cs *c10Case) {
 			R0[c10Get(h, cs.Request).bag()] = true
 		}
 	}
+	// references for the stall phase: r and up to three other view URLs, each from fresh servers taken now
+	stallURLs := []string{cs.Request}
+	stallRefs := map[string]map[string]bool{cs.Request: R0}
+	if cs.Phase == "" || cs.Phase == "stall" {
+		for _, o := range cs.Others {
+			if len(stallURLs) >= 4 || stallRefs[o] != nil {
+				continue
+			}
+			set := map[string]bool{}
+			for i := 0; i < 3; i++ {
+				if h, _, err := c10Server(parse(), flags); err == nil {
+					set[c10Get(h, o).bag()] = true
+				}
+			}
+			stallURLs = append(stallURLs, o)
+			stallRefs[o] = set
+		}
+	}
 	c.Res.Hit(fmt.Sprintf("web-ref-status:%d", ref.Status))
 	ru, _ := url.Parse(cs.Request)
 	name := "other"
@@ -326,7 +345,7 @@ func c10WebCase(c *Ctx, cs *c10Case) {
 		c.Res.Hit(fmt.Sprintf("web-other-status:%d", rr.Status))
 	}
 	seq := ref
-	if cs.Phase != "conc" {
+	if cs.Phase == "" || cs.Phase == "seq" {
 		seq = c10Get(h1, cs.Request)
 	}
 	if seq != ref && c10WebStable(c, R0, seq, name) {
@@ -334,7 +353,7 @@ func c10WebCase(c *Ctx, cs *c10Case) {
 			cs.Request, len(cs.Others), c10RespDiff(seq, ref)), cs)
 	}
 	// concurrently: three copies of r in the middle of the others, twice
-	for round := 0; round < 2 && cs.Phase != "seq"; round++ {
+	for round := 0; round < 2 && (cs.Phase == "" || cs.Phase == "conc"); round++ {
 		var wg sync.WaitGroup
 		got := make([]c10Resp, 3)
 		for i := range got {
@@ -354,6 +373,9 @@ func c10WebCase(c *Ctx, cs *c10Case) {
 			}
 		}
 	}
+	if cs.Phase == "" || cs.Phase == "stall" {
+		c10WebStallPhase(c, cs, h1, stallURLs, stallRefs)
+	}
 	// the first server again (it has seen nothing but r): state shared between servers of one process
 	again := c10Get(h0, cs.Request)
 	if again != ref && c10WebStable(c, R0, again, name) {
@@ -369,4 +391,129 @@ func c10WebCase(c *Ctx, cs *c10Case) {
 		c.Violation("C10/web/download-changed", "/download after the requests differs from /download of a fresh server: the loaded profile was modified", cs)
 	}
 	c.Res.Hit("web-cases")
+}
+
+
+// ---- stall phase: responses still being WRITTEN while other requests are rendered ----
+
+// c10StallWriter is an http.ResponseWriter of a slow client: its first Write announces itself and then
+// blocks until the gate opens; only then are the bytes it was handed copied. A handler that hands out
+// memory it does not own any more (a pooled buffer already returned, a shared scratch slice) shows up as
+// a body that is not the page of this request.
+type c10StallWriter struct {
+	h       http.Header
+	code    int
+	body    bytes.Buffer
+	entered chan struct{}
+	gate    chan struct{}
+	once    sync.Once
+}
+
+func (w *c10StallWriter) Header() http.Header { return w.h }
+func (w *c10StallWriter) WriteHeader(code int) {
+	if w.code == 0 {
+		w.code = code
+	}
+}
+func (w *c10StallWriter) Write(p []byte) (int, error) {
+	w.once.Do(func() { close(w.entered) })
+	select {
+	case <-w.gate:
+	case <-time.After(20 * time.Second):
+	}
+	if w.code == 0 {
+		w.code = http.StatusOK
+	}
+	// a slow reader: the body is taken in pieces, yielding in between
+	for off := 0; off < len(p); off += 16 << 10 {
+		end := off + 16<<10
+		if end > len(p) {
+			end = len(p)
+		}
+		w.body.Write(p[off:end])
+		runtime.Gosched()
+	}
+	return len(p), nil
+}
+
+func c10WebStallPhase(c *Ctx, cs *c10Case, h map[string]http.Handler, urls []string, refs map[string]map[string]bool) {
+	procsList := []int{1, runtime.NumCPU()}
+	for _, procs := range procsList {
+		old := runtime.GOMAXPROCS(procs)
+		gate := make(chan struct{})
+		type inflight struct {
+			url  string
+			w    *c10StallWriter
+			done chan struct{}
+			pn   string
+		}
+		var fl []*inflight
+		// the stalled requests: every reference URL once, r twice (different URLs overlap each other, too)
+		for _, u := range append(append([]string{}, urls...), cs.Request) {
+			pu, err := url.Parse(u)
+			if err != nil || h[pu.Path] == nil {
+				continue
+			}
+			f := &inflight{url: u, w: &c10StallWriter{h: http.Header{}, entered: make(chan struct{}), gate: gate}, done: make(chan struct{})}
+			fl = append(fl, f)
+			go func(f *inflight, hd http.Handler) {
+				defer close(f.done)
+				f.pn = c10Safely(func() { hd.ServeHTTP(f.w, httptest.NewRequest("GET", f.url, nil)) })
+			}(f, h[pu.Path])
+			// let it reach its Write (or finish) before the next one starts: the overlap is then the same
+			// whatever the scheduler does
+			select {
+			case <-f.w.entered:
+			case <-f.done:
+			case <-time.After(20 * time.Second):
+			}
+		}
+		// traffic rendered while those responses are in flight: all the others and the reference URLs,
+		// one after the other and then all at once
+		traffic := append(append([]string{}, cs.Others...), urls...)
+		for _, o := range traffic {
+			c10Get(h, o)
+		}
+		var wg sync.WaitGroup
+		for _, o := range traffic {
+			wg.Add(1)
+			go func(o string) { defer wg.Done(); c10Get(h, o) }(o)
+		}
+		wg.Wait()
+		close(gate)
+		for _, f := range fl {
+			select {
+			case <-f.done:
+			case <-time.After(30 * time.Second):
+				c.Res.HarnessError = "stall phase: handler did not finish for " + f.url
+				runtime.GOMAXPROCS(old)
+				return
+			}
+		}
+		runtime.GOMAXPROCS(old)
+		c.Res.Hit(fmt.Sprintf("web-stalled-responses(GOMAXPROCS=%d)", procs))
+		for _, f := range fl {
+			got := c10Resp{Status: f.w.code, Body: f.w.body.String()}
+			if f.pn != "" {
+				got = c10Resp{Status: -2, Body: "panic: " + f.pn}
+			}
+			if len(got.Body) > 64<<10 {
+				c.Res.Hit("web-stalled-body>64KiB")
+			}
+			set := refs[f.url]
+			name := "other"
+			if pu, err := url.Parse(f.url); err == nil {
+				name = c10Endpoint(pu.Path)
+			}
+			if set[got.bag()] {
+				continue
+			}
+			if len(set) > 1 {
+				c.Res.Hit("C08-run-to-run-nondeterministic-output:web-" + name)
+				continue
+			}
+			c.Violation("C10/web/overlap-dependent/"+name, fmt.Sprintf("the response to %s, still being written (slow client) while %d other requests were rendered with GOMAXPROCS=%d, is not that URL's fresh-server response (%d bytes received; first 120: %q)",
+				f.url, 2*len(traffic), procs, len(got.Body), c10Trunc(got.Body[:min(len(got.Body), 120)])), cs)
+		}
+	}
 }
